@@ -3,7 +3,8 @@ register("C17",
          "distance dict order, TDVPUpdatePathFinder with its tie-breaking, the state-threading _find_caching_path) + exact differential "
          "correspondence on all rooted ordered trees up to 7 (quick) / 9 (thorough) nodes and random trees up to 40 nodes + BFS oracle; "
          "histories of real TDVP algorithm objects (several objects per process on trees sharing identifiers and traversal sequences, "
-         "time steps / runs / resets on a reused object): update path and environment cache keys held by the object against the model and "
+         "time steps / runs / resets on a reused object; states already in canonical form w.r.t. any node (any leaf, inner node, root; "
+         "centre moved around) or taken over from an earlier object before the path finder / TDVP object is built): update path and environment cache keys held by the object against the model and "
          "the BFS oracle, cached blocks against a naive einsum contraction",
          "Universal theorems (every rooted ordered tree with unique identifiers): linearise (permutation, children first, root last); root paths; "
          "path_from_to is the unique simple tree path; distances from every centre equal path lengths; subtree/leaves/size queries; the TDVP update "
